@@ -1,5 +1,5 @@
 ---------------------------- MODULE IprVisitorTrace ----------------------------
-(* {"e":"visit","impl":class,"cat":category,"hooks":[..],"entries":n,"views":[..],"sink":s}  one line per node instance *)
+(* {"e":"visit","impl":class,"cat":category,"hooks":[..],"entries":n,"views":[..],"sink":s,"nestdepth":d,"nested":n,"strays":k,"innerviews":[..]}  one line per node instance *)
 EXTENDS IprVisitor, Json, IOUtils
 VARIABLE l
 T == ndJsonDeserialize(IOEnv.TRACE)
@@ -10,6 +10,9 @@ TVisit == /\ Ev.cat \in Leaves
           /\ Ev.entries = 1                           \* accept calls exactly one hook
           /\ Ev.views = <<Ev.cat>>                    \* view<K> yields the node for its own category only
           /\ Ev.sink = Dispatch(Ev.cat, {})           \* a visitor defining only the sinks receives it there
+          \* accept entered again from inside the hook, nestdepth levels deep: the own hook at every level, no other hook, and
+          \* view<K> from the innermost hook as from outside
+          /\ Ev.nested = Ev.nestdepth /\ Ev.strays = 0 /\ Ev.innerviews = <<Ev.cat>>
 TNext == l <= Len(T) /\ TVisit /\ l' = l + 1
 TSpec == TInit /\ [][TNext]_l
 Accepted == TLCGet("stats").diameter - 1 = Len(T)
